@@ -243,6 +243,11 @@ func TestVerif_C04_GroupKinds(t *testing.T) {
 		if contact {
 			kinds = []string{"adddevice", "adddevice", "alias", "alias", "secret", "meta", "xsync"}
 		}
+		// what creating a group does: the creator announces its device, then claims the group
+		created := !contact && rapid.Bool().Draw(rt, "created")
+		if created {
+			ops = append(ops, c04gOp{W: 0, Kind: "adddevice"}, c04gOp{W: 0, Kind: "claim"})
+		}
 		for i, n := 0, rapid.IntRange(2, 8).Draw(rt, "n"); i < n; i++ {
 			ops = append(ops, c04gOp{W: rapid.IntRange(0, 2).Draw(rt, "w"), Kind: rapid.SampledFrom(kinds).Draw(rt, "kind"), To: rapid.IntRange(0, 2).Draw(rt, "to")})
 		}
@@ -259,6 +264,9 @@ func TestVerif_C04_GroupKinds(t *testing.T) {
 		kind := "multimember-group"
 		if contact {
 			kind = "contact-group"
+		}
+		if created {
+			labels = append(labels, "g/created-by-writer-0")
 		}
 		acct.Case(res.labels["g/batch-vs-single"], fmt.Sprintf("%v|%d|%v|%s", contact, nW, same, b), func() any {
 			return map[string]any{"kind": kind, "writers": nW, "ops": res.trace}
